@@ -223,6 +223,11 @@ def run(ctx):
     f = mir.fn("Arena::shift")
     callers = sorted(set(c.key for c, bi, t in mir.callers_of(r"Arena::shift$") if not mir.is_test_fn(c)))
     witness("Arena::shift|callers", callers == ["TransformStream::write"], f"Arena::shift (copy_within / len - n) is called from {callers}; its argument must be the parser's consumed count <= len", f.loc())
+    f = mir.fn("DenseHashSet::insert")
+    rz = [t for bi, t in f.calls(r"DenseHashSet::resize$")]
+    from ..mirlib import atoms_of_operand as _atoms
+    witness("DenseHashSet::insert|grows-to-index", len(rz) == 1 and "arg2" in _atoms(f, rz[0]["args"][1]),
+            "DenseHashSet::insert grows the bit set by an amount that does not depend on the inserted id: the word for a high match id (>= 64 with 65+ selectors) may still be missing after the resize, and the `debug_assert!(false)` fallback fires (debug) or the match is silently dropped (release)", f.loc())
     # ActionError::Internal is turned into an Err, not a panic
     p = mir.fn("Parser::parse")
     aggs = [st["rv"]["name"] for b in p.blocks for st in b["stmts"] if st["k"] == "assign" and st["rv"]["k"] == "agg"]
